@@ -28,7 +28,7 @@ F1(f) == Force(Bi(f))
 F2(f) == Force(Force(Bi(f)))
 
 Atoms ==
-    CASE Profile = "core" -> {I(0), Err}
+    CASE Profile \in {"core", "closure"} -> {I(0), Err}
       [] Profile = "lambda" -> {I(0), I(1), U, Err, Bi("addInteger"), F1("ifThenElse")}
       [] Profile = "constr" -> {I(0), I(2), B(TRUE), U, Err, L(TInt, <<MkInt(7)>>), L(TInt, <<>>),
                                 Con(MkPair(TInt, TBool, MkInt(4), MkBool(FALSE)))}
@@ -104,10 +104,36 @@ L7 == [sc \in 1..(MaxScope + 1) |-> Build(7, sc - 1, <<L1, L2, L3, L4, L5, L6>>)
 TS(n, sc) == CASE n = 1 -> L1[sc + 1] [] n = 2 -> L2[sc + 1] [] n = 3 -> L3[sc + 1] [] n = 4 -> L4[sc + 1]
                [] n = 5 -> L5[sc + 1] [] n = 6 -> L6[sc + 1] [] n = 7 -> L7[sc + 1]
 
+(***************************************************************************)
+(* Profile "closure": results that are closures over closures.  The value   *)
+(* returned captures a variable whose value is itself a closure with a      *)
+(* captured variable (two to three environment levels), under lam / delay / *)
+(* constr / case / application: what read-back (discharge) must substitute  *)
+(* with the right environment at the right binder depth.                    *)
+(***************************************************************************)
+V1 == Var(1)
+V2 == Var(2)
+V3 == Var(3)
+\* closures with one captured variable `a` (index counted from inside)
+Inner == {Lam(V2), Delay(V1), Lam(Lam(V3)), Lam(App(V1, V2)), Constr(1, <<V1>>), Lam(Constr(0, <<V1, V2>>)),
+          Lam(Case(V2, <<V1>>)), Delay(Lam(V2)), Lam(Delay(V2))}
+Captured == {I(7), Lam(V1), Delay(I(7)), Constr(0, <<I(1)>>)}
+\* a closure value: [(lam a INNER) CAPTURED]
+Clos1 == {App(Lam(c), v) : c \in Inner, v \in Captured}
+\* ... whose captured value is itself such a closure
+Clos2 == {App(Lam(c), v) : c \in Inner, v \in {App(Lam(Lam(V2)), I(7)), App(Lam(Delay(V1)), Lam(V1)),
+                                              App(Lam(Lam(Lam(V3))), I(3)), App(Lam(Constr(1, <<V1>>)), Delay(I(2)))}}
+\* what is returned around the captured closure `f`
+Outer == {Lam(V2), Delay(V1), Lam(Lam(V3)), Lam(App(V2, V1)), Constr(0, <<V1, I(0)>>), Lam(Constr(1, <<V2>>)),
+          Delay(Case(Constr(0, <<>>), <<V1>>)), Lam(Delay(V2)), Lam(Case(V1, <<V2>>)), App(Lam(Lam(V2)), V1)}
+ClosureTerms == {App(Lam(o), c) : o \in Outer, c \in Clos1 \cup Clos2}
+                \cup {App(App(Lam(Lam(o)), c), d) : o \in {Lam(V3), Lam(V2), Delay(Constr(0, <<V1, V2>>)), Lam(App(V3, V2))},
+                                                    c \in Clos1, d \in {I(9), Lam(V1)}}
+
 VARIABLES st, t0
 vars == <<st, t0>>
 
-Init == \E n \in 1..N : \E t \in TS(n, 0) : \E s \in Sems :
+Init == \E n \in 1..N : \E t \in (IF Profile = "closure" THEN (IF n = 1 THEN ClosureTerms ELSE {}) ELSE TS(n, 0)) : \E s \in Sems :
             /\ t0 = t
             /\ st = InitState(t, s)
 
